@@ -225,6 +225,8 @@ def assign(lists, kind, t, pidx=0):
             ext[last] = w if w > 1 else 2
         elif kind == "W2":
             ext[last] = 2 * w
+        elif kind == "W3":          # several 128-bit chunks but not a whole number of 256-bit ones
+            ext[last] = 3 * w if w > 1 else 3
         elif kind == "O":
             ext[labs[pidx % len(labs)]] = 1
         vol, mo, out = _sizes(lists, ext)
@@ -428,7 +430,11 @@ def _pairwise(tier, cfg):
             plan += [("f64", "einsum", "d", "D"), ("f64", "contraction", "c", "D"), ("f32", "einsum", "c", "W"), ("i32", "einsum", "c", "D")]
             if cls in (1, 2, 3, 4) or J.count(J[-1]) == 2:
                 plan += [("f64", "contraction", "c", "W")]
+            if last_free and rs <= 5:
+                plan += [("i32", "einsum", "c", "W3"), ("f64", "einsum", "c", "W3")]
         elif main:
+            if last_free and rs <= 6:
+                plan += [(tt, "einsum", "c", "W3") for tt in ("f64", "f32", "i32", "i64", "c64")]
             plan += [("f64", "einsum", "c", "D"), ("f64", "einsum", "c", "W")]
             if last_free:
                 plan += [("f64", "einsum", "c", "W2"), ("f32", "einsum", "c", "W2")]
@@ -591,7 +597,7 @@ def bounds(tier):
               "CONTRACT_OPT=-2/-3 (compile-time meta-engine variants with documented static_asserts) not enumerated")
     if tier == "quick":
         return ("ranks r0,r1<=3 (168 patterns) + the 37 rank-4 patterns classified generalised matvec/vecmat/matmat; f64: einsum x {D,W,O,(W2)} "
-                "canonical, D descending, contraction x D (x W where contraction<> takes another route than einsum<>); f32: W,(W2); i32: D; "
+                "canonical, D descending, contraction x D (x W where contraction<> takes another route than einsum<>); f32: W,(W2); i32: D; f64 and i32 W3 (last extent = three 128-bit vectors) where the last label is free and the rank sum <=5; "
                 "single-tensor einsum/contraction: all 43 patterns up to rank 5 (f64 D,O + descending, f32/i32 D); inner: 23 shapes, outer: 24 shape "
                 "pairs per type (incl. extent-1 operands); explicit OIndex (A2 C++17): rank sums <=4 all permutations of the free labels, rank sum 5 "
                 "with <=2 free labels, single-tensor all permutations; configurations S2, A2, A5 (C++14) + A2 (C++17) + A2 (C++17, CONTRACT_OPT=-1: contraction<> and nest einsum<> for rank sums <=5). " + common)
@@ -602,7 +608,7 @@ def bounds(tier):
             "contraction) + explicit OIndex for rank sums <=5 with all permutations of the free labels (f32 and descending for rank sums <=4). A2 with "
             "CONTRACT_OPT=-1 and =1 (odometer / index-arithmetic nests inside extractor_contract_2): contraction<> on every pattern that is not an "
             "outer product (f64 D; W for rank sums<=7; W2, f32 where the last label is free) and einsum<> on nest patterns of rank sums <=6; "
-            "CONTRACT_OPT=2: rank sums <=5 (the macro does not reach these entry points). A2 C++17 with CONTRACT_OPT=-1 and =1 (constexpr spelling of the odometer arithmetic): rank sums <=6. A2 + FASTOR_DONT_VECTORISE: f64 D all, W + f32 W <=6. "
+            "W3 (last extent = three 128-bit vectors) for f64,f32,i32,i64,complex<double> where the last label is free, rank sums <=6, on S2/A2/A5. CONTRACT_OPT=2: rank sums <=5 (the macro does not reach these entry points). A2 C++17 with CONTRACT_OPT=-1 and =1 (constexpr spelling of the odometer arithmetic): rank sums <=6. A2 + FASTOR_DONT_VECTORISE: f64 D all, W + f32 W <=6. "
             "inner/outer: all N<=4W+1 vectors, unit-extent operands; i64 and complex<double> on S2/A2/A5. " + common)
 
 
